@@ -9,13 +9,15 @@ import (
 
 // ---------------------------------------------------------------- crash images (C02)
 
-// recoverySteps is what is done with every crash image: load it, write more, sync, load, close, load.
+// recoverySteps is what is done with every crash image: load it, write more, sync, write, close, load.
+// (One load after the recovery: as built, a load of a file with blocks appended behind torn bytes reads a
+// garbage block header and allocates - and clears - up to 4 GiB, which dominates the run time.)
 func recoverySteps(level string) []Step {
 	if level == "ch" {
-		return []Step{{Ev: "open"}, {Ev: "put", Op: "ins", K: 1, P: 1}, {Ev: "put", Op: "upd", K: 2, P: 2}, {Ev: "sync"}, {Ev: "load"},
+		return []Step{{Ev: "open"}, {Ev: "put", Op: "ins", K: 1, P: 1}, {Ev: "put", Op: "upd", K: 2, P: 2}, {Ev: "sync"},
 			{Ev: "put", Op: "del", K: 1}, {Ev: "close"}, {Ev: "open"}}
 	}
-	return []Step{{Ev: "load"}, {Ev: "open"}, {Ev: "put", Op: "ins", K: 1, P: 1}, {Ev: "put", Op: "upd", K: 2, P: 2}, {Ev: "sync"}, {Ev: "load"},
+	return []Step{{Ev: "load"}, {Ev: "open"}, {Ev: "put", Op: "ins", K: 1, P: 1}, {Ev: "put", Op: "upd", K: 2, P: 2}, {Ev: "sync"},
 		{Ev: "put", Op: "del", K: 1}, {Ev: "close"}, {Ev: "load"}}
 }
 
@@ -31,14 +33,16 @@ func tearOffsets(n, maxAll int) []int {
 		}
 		return out
 	}
+	// a sample: first and last bytes, the field boundaries of the block header (4, 8, 10, 14) and of the
+	// counters in the file header (28, 36, 44), the middle, and maxAll evenly spread offsets
 	set := map[int]bool{}
-	for _, b := range []int{1, 2, 3, 4, 7, 8, 15, 16, 17, 27, 28, 29, 35, 36, 37, 43, 44, 45, n - 3, n - 2, n - 1, n / 2} {
+	for _, b := range []int{1, 3, 4, 5, 8, 10, 14, 15, 28, 29, 36, 37, 44, n - 1, n / 2} {
 		if b >= 1 && b < n {
 			set[b] = true
 		}
 	}
-	for i := 1; i <= 12; i++ {
-		set[1+(n-2)*i/13] = true
+	for i := 1; i <= maxAll; i++ {
+		set[1+(n-2)*i/(maxAll+1)] = true
 	}
 	out := make([]int, 0, len(set))
 	for b := range set {
@@ -46,6 +50,13 @@ func tearOffsets(n, maxAll int) []int {
 	}
 	sort.Ints(out)
 	return out
+}
+
+func b2b(b bool) byte {
+	if b {
+		return 1
+	}
+	return 0
 }
 
 type image struct {
@@ -90,8 +101,10 @@ func (x *Exec) runCrash(h *History) {
 	groups := map[key]map[string]int{}
 	order := []key{}
 	kinds := map[key]string{}
-	observe := func(im *image) string {
-		tag := []byte{0}
+	// full = run the whole recovery script; otherwise only load the image (a load of a torn image is cheap,
+	// the load after the recovery is what reads garbage headers)
+	observe := func(im *image, full bool) string {
+		tag := []byte{0, b2b(full)}
 		if im.exists {
 			tag[0] = 1
 		}
@@ -105,7 +118,11 @@ func (x *Exec) runCrash(h *History) {
 		if im.exists {
 			os.WriteFile(dir+"/swamp.hyd", im.data, 0o644)
 		}
-		r2 := x.executeIn(h, in, dir, rec)
+		steps := rec
+		if !full {
+			steps = rec[:1]
+		}
+		r2 := x.executeIn(h, in, dir, steps)
 		os.RemoveAll(dir)
 		evs := r2.events
 		obs := Event{"lerr": 0, "lm": make([]int, NKeys), "rec": []Event{}}
@@ -140,12 +157,14 @@ func (x *Exec) runCrash(h *History) {
 			break // the clean-up close after the history
 		}
 		k := key{op.Ev, op.Idx, "none"}
-		add(k, op.Kind, observe(im))
+		add(k, op.Kind, observe(im, true))
 		if op.Raw == "write" {
-			for _, b := range tearOffsets(len(op.Data), maxAll) {
+			offs := tearOffsets(len(op.Data), maxAll)
+			for i, b := range offs {
 				t := &image{exists: im.exists, data: append([]byte(nil), im.data...)}
 				t.apply(op, b)
-				add(key{op.Ev, op.Idx, "part"}, op.Kind, observe(t))
+				full := i == 0 || i == len(offs)-1 || i == len(offs)/2
+				add(key{op.Ev, op.Idx, "part"}, op.Kind, observe(t, full))
 			}
 			im.apply(op, len(op.Data))
 		} else {
